@@ -311,6 +311,15 @@ func (w *world) doStep() bool {
 		}
 		w.model[l] = &macc{name, acc, pw}
 		w.notePW(l, pw)
+		if r.Chance(1, 3) {
+			// a session of the new account stays connected while the account is later edited, renamed or deleted (the
+			// server then messages and disconnects it from a delayed goroutine)
+			w.nAddr++
+			if cl, err := refclient.LoginAs(w.srv, fmt.Sprintf("10.15.%d.%d:77", w.nAddr/250, 1+w.nAddr%250), l, pw, "Resident"); err == nil {
+				w.c.Count("resident_sessions", 1)
+				_ = cl
+			}
+		}
 	case "new-user-existing":
 		l := core.Pick(r, ex)
 		rep, ok := w.adm.Call(350, rc.F(105, rc.Obfuscate([]byte(l))), rc.FS(102, "usurper"), rc.F(110, make([]byte, 8)), rc.F(106, rc.Obfuscate([]byte("usurp"))))
